@@ -84,8 +84,9 @@ CONSTANTS Groups,     \* the groups explored by this configuration (subset of Al
                       \* every request is answered - the alphabet of the first versions of this specification)
           Share,      \* group syncduty: "period" = one map of committee positions per period, aliased by every duty and
                       \* every data record (the code); "slot" = a copy per duty (control design)
-          AliasWrite, \* group syncduty: the class of change rendered - who writes an object it was handed: "none" (the code),
-                      \* "message-indices", "prepare-indices", "verify-indices", "schedule-accounts"
+          AliasWrite, \* groups syncduty, attinfo: the class of change rendered - who writes an object it was handed: "none" (the
+                      \* code), "message-indices", "prepare-indices", "verify-indices", "schedule-accounts" (syncduty),
+                      \* "job-subscription-entries" (attinfo)
           MaxPar      \* maximal number of overlapping operations in a schedule (3)
 
 AllGroups == {"wallet", "blockrelay", "messenger", "controller", "cache", "validators", "attester",
@@ -95,7 +96,11 @@ AllGroups == {"wallet", "blockrelay", "messenger", "controller", "cache", "valid
               "dirk",
               \* the sync committee duty pipeline through the controller's scheduling path: structures ALIASED between
               \* the jobs of neighbouring slots, the data records and the head event handler
-              "syncduty"}
+              "syncduty",
+              \* attestation jobs of the slots of one epoch read the ENTRIES of the epoch's subscription info (one map,
+              \* published through controller.subscriptionInfos) without the lock || head events (old epochs removed,
+              \* node 2: a refresh publishes a new one)
+              "attinfo"}
 
 -----------------------------------------------------------------------------
 (* ---------------------------- part (a): sequential meaning -------------------------------- *)
@@ -124,11 +129,25 @@ SelA == IF WideEnv THEN {"agg", "noagg", "fail"} ELSE {"agg"}              \* se
 ContribA == IF WideEnv THEN {"ok", "fail"} ELSE {"ok"}                     \* contribution request of an aggregation job
 BlockA == IF WideEnv THEN {"match", "missing", "mismatch", "fail"} ELSE {"match"}   \* fetch of the head block by the verification
 
+\* group attinfo: what the attester returns to an attestation job (no attestations / one per validator of the duty) and
+\* whether the by-index lookup of the aggregator's account finds one
+AttA == IF WideEnv THEN {"none", "some"} ELSE {"none"}
+JobAcctA == IF WideEnv THEN {"yes", "no"} ELSE {"yes"}
+
 \* State: the job table of the period (prepare / message / aggregation jobs by slot), the aggregators each prepare job
 \* found, the slots with a data record, the message jobs a head event has started (spawn: before their record,
-\* spawn2: after it), the slots whose duties a refresh is still scheduling (pend), the generation of each slot's duty.
+\* spawn2: after it; each with the generation of its duty), the slots whose duties a refresh is still scheduling (pend),
+\* and the generation of the duty that the scheduled prepare / message / aggregation job of each slot belongs to (a
+\* refresh makes NEW duties - new objects - for the slots from the current one on; jobs of the old duties that were
+\* under way, or that such a job schedules, still work on the old objects).
 SyncInit == [acct |-> {}, prep |-> SyncSlots, msg |-> {}, agg |-> {}, aggs |-> [s \in SyncSlots |-> {}], rec |-> {},
-             spawn |-> {}, spawn2 |-> {}, pend |-> {}, gen |-> [s \in SyncSlots |-> 0]]
+             spawn |-> {}, spawn2 |-> {}, pend |-> {}, gen |-> [s \in SyncSlots |-> 0],
+             mgen |-> [s \in SyncSlots |-> 0], agen |-> [s \in SyncSlots |-> 0]]
+\* the generation of the duty whose job a call takes at its first point
+JobGen(st, o) == CASE o.op = "Prep" -> st.gen[o.s] [] o.op = "Msg" -> st.mgen[o.s] [] o.op = "Agg" -> st.agen[o.s] [] OTHER -> 0
+\* ScheduleJob refuses a name that is taken: the job table keeps the job (and the duty) it has
+AddMsg(st, s, k) == IF s \in st.msg THEN st ELSE [st EXCEPT !.msg = @ \cup {s}, !.mgen[s] = k]
+AddAgg(st, s, k) == IF s \in st.agg THEN st ELSE [st EXCEPT !.agg = @ \cup {s}, !.agen[s] = k]
 
 Submitted(acct, sig) == IF sig = "fail" THEN {} ELSE IF sig = "zero1" THEN acct \ {1} ELSE acct
 
@@ -146,22 +165,22 @@ Submitted(acct, sig) == IF sig = "fail" THEN {} ELSE IF sig = "zero1" THEN acct 
 \*                      looks for its data record (res 1: found, the head block is fetched: block)
 \*   Resched            refresh of the period's duties (reorg): 1..3 the jobs of slot 1, 2, 3 are cancelled; 4 the new
 \*                      duties are being scheduled, slot by slot, on goroutines of their own (from the current slot on)
-SyncApply(st, o, ph, res) ==
+SyncApply(st, o, ph, res, k) ==        \* k: the generation of the duty whose job the call has taken
     CASE o.op = "Env" -> {[st |-> [st EXCEPT !.acct = o.acct], res |-> 0, ph |-> 0]}
       [] o.op = "Prep" ->
             IF ph = 1
             THEN IF o.s \in st.prep THEN {[st |-> [st EXCEPT !.prep = @ \ {o.s}], res |-> 1, ph |-> 2]}
                  ELSE {[st |-> st, res |-> 0, ph |-> 0]}
             ELSE IF o.sel = "fail" /\ st.acct # {} THEN {[st |-> st, res |-> res, ph |-> 0]}     \* no message job
-                 ELSE {[st |-> [st EXCEPT !.msg = @ \cup {o.s},
-                                           !.aggs[o.s] = IF o.sel = "agg" THEN st.acct ELSE {}], res |-> res, ph |-> 0]}
+                 ELSE {[st |-> [AddMsg(st, o.s, k) EXCEPT !.aggs[o.s] = IF o.sel = "agg" THEN st.acct ELSE {}],
+                        res |-> res, ph |-> 0]}
       [] o.op = "Msg" ->
             CASE ph = 1 -> IF o.s \in st.msg THEN {[st |-> [st EXCEPT !.msg = @ \ {o.s}], res |-> 8, ph |-> 2]}
                            ELSE {[st |-> st, res |-> 0, ph |-> 0]}
               [] ph = 2 -> IF o.root = "fail" THEN {[st |-> st, res |-> res, ph |-> 0]}
                            ELSE {[st |-> [st EXCEPT !.rec = @ \cup {o.s}], res |-> res, ph |-> 3]}
               [] OTHER -> LET sub == Submitted(st.acct, o.sig) IN
-                           {[st |-> IF sub # {} /\ st.aggs[o.s] # {} THEN [st EXCEPT !.agg = @ \cup {o.s}] ELSE st,
+                           {[st |-> IF sub # {} /\ st.aggs[o.s] # {} THEN AddAgg(st, o.s, k) ELSE st,
                              res |-> 8 + Mask3(sub), ph |-> 0]}
       [] o.op = "Agg" ->
             IF o.s \in st.agg
@@ -170,7 +189,7 @@ SyncApply(st, o, ph, res) ==
             ELSE {[st |-> st, res |-> 0, ph |-> 0]}
       [] o.op = "Head" ->
             IF ph = 1
-            THEN {[st |-> IF o.s \in st.msg THEN [st EXCEPT !.msg = @ \ {o.s}, !.spawn = @ \cup {o.s}] ELSE st,
+            THEN {[st |-> IF o.s \in st.msg THEN [st EXCEPT !.msg = @ \ {o.s}, !.spawn = @ \cup {<<o.s, st.mgen[o.s]>>}] ELSE st,
                    res |-> res, ph |-> 2]}
             ELSE {[st |-> st, res |-> IF (o.s - 1) \in st.rec THEN 1 ELSE 0, ph |-> 0]}
       [] OTHER (* Resched *) ->
@@ -182,10 +201,10 @@ SyncApply(st, o, ph, res) ==
 \* no head root) and finishes (whatever its signer answers); a scheduling goroutine of a refresh schedules the prepare
 \* job of its slot for a NEW duty (next generation).
 SyncSilent(st) ==
-    {[st EXCEPT !.spawn = @ \ {s}, !.spawn2 = @ \cup {s}, !.rec = @ \cup {s}] : s \in st.spawn}
-    \cup {[st EXCEPT !.spawn = @ \ {s}] : s \in IF "fail" \in RootA THEN st.spawn ELSE {}}
-    \cup {[st EXCEPT !.spawn2 = @ \ {s}] : s \in st.spawn2}
-    \cup {[st EXCEPT !.spawn2 = @ \ {s}, !.agg = @ \cup {s}] : s \in {x \in st.spawn2 : st.aggs[x] # {}}}
+    {[st EXCEPT !.spawn = @ \ {j}, !.spawn2 = @ \cup {j}, !.rec = @ \cup {j[1]}] : j \in st.spawn}
+    \cup {[st EXCEPT !.spawn = @ \ {j}] : j \in IF "fail" \in RootA THEN st.spawn ELSE {}}
+    \cup {[st EXCEPT !.spawn2 = @ \ {j}] : j \in st.spawn2}
+    \cup {AddAgg([st EXCEPT !.spawn2 = @ \ {j}], j[1], j[2]) : j \in {x \in st.spawn2 : st.aggs[x[1]] # {}}}
     \cup {[st EXCEPT !.pend = @ \ {s}, !.prep = @ \cup {s}, !.gen[s] = 1] : s \in st.pend}
 
 \* the operations of group syncduty (every parameter ranges over the environment's alphabet)
@@ -217,7 +236,7 @@ SyncPrologue(a, late1) ==
 RECURSIVE SyncRunCall(_, _, _, _)
 SyncRunCall(st, o, ph, res) ==
     IF ph = 0 THEN st
-    ELSE LET a == CHOOSE x \in SyncApply(st, o, ph, res) : TRUE IN SyncRunCall(a.st, o, a.ph, a.res)
+    ELSE LET a == CHOOSE x \in SyncApply(st, o, ph, res, 0) : TRUE IN SyncRunCall(a.st, o, a.ph, a.res)
 RECURSIVE SyncRun(_, _)
 SyncRun(st, ops) == IF ops = <<>> THEN st ELSE SyncRun(SyncRunCall(st, Head(ops), 1, -9), Tail(ops))
 
@@ -244,6 +263,7 @@ SeqInits(g) ==
                           \ {[offer |-> o, known |-> k, pub |-> 0] : o \in SUBSET {1, 2}, k \in (SUBSET {1, 2}) \ {{}}}
       \* the controller has just started: the prepare jobs of the period's slots are scheduled
       [] g = "syncduty" -> {SyncInit}
+      [] g = "attinfo" -> {[seen |-> 0]}
 
 \* Start states of the exhaustive runs.  Group dirk: a FRESH instance (nothing published, nothing known) - every
 \* other state of SeqInits is reached by a history of calls (recorded histories may start in any of them: the
@@ -284,7 +304,7 @@ Apply(g, st, o) ==
               [] o.op = "GetData" -> {[st |-> st, res |-> IF o.s \in DOMAIN st.rec THEN st.rec[o.s] ELSE 0]}
               [] OTHER (* Remove(cur): more than the threshold of records exist (driver prefill) *) ->
                     {[st |-> [st EXCEPT !.rec = Drop(st.rec, {s \in DOMAIN st.rec : s < o.cur - Keep})], res |-> 0]}
-      [] g = "controller" -> {[st |-> st, res |-> 0]}
+      [] g \in {"controller", "attinfo"} -> {[st |-> st, res |-> 0]}
       [] g = "cache" ->
             CASE o.op = "BlockEvent" -> {[st |-> [st EXCEPT !.map = st.map \cup {o.r}], res |-> 0]}
               [] o.op = "Lookup" -> {[st |-> [st EXCEPT !.map = m], res |-> o.r] : m \in {st.map, st.map \cup {o.r}}}
@@ -340,8 +360,8 @@ Apply(g, st, o) ==
               [] OTHER (* Query *) -> {[st |-> st, res |-> Mask(st.known)]}
 
 \* One linearization point of a call: the calls of every group but syncduty have ONE (phase 1, then done = 0).
-ApplyPh(gg, s, o, ph, res) ==
-    IF gg = "syncduty" THEN SyncApply(s, o, ph, res)
+ApplyPh(gg, s, o, ph, res, k) ==
+    IF gg = "syncduty" THEN SyncApply(s, o, ph, res, k)
     ELSE {[st |-> a.st, res |-> a.res, ph |-> 0] : a \in Apply(gg, s, o)}
 \* the states a step of a goroutine that is no call of the history can lead to
 Silent(gg, s) == IF gg = "syncduty" THEN SyncSilent(s) ELSE {}
@@ -411,6 +431,10 @@ ParOps(g) ==
       \* head events of two nodes || message jobs of the previous and the current slot || prepare job of the next slot ||
       \* aggregation job of the previous slot || refresh of the period's duties, each with every answer of the environment
       [] g = "syncduty" -> SyncParOps
+      \* attestation jobs of two slots of the epoch (the attester returns nothing - the job ends there - or attestations:
+      \* the job looks the aggregator up in the epoch's subscription info, then its account) || head events
+      [] g = "attinfo" -> {[op |-> "Job", s |-> s, att |-> a, acct |-> c] : s \in 1..2, a \in AttA, c \in JobAcctA}
+                          \cup {[op |-> "Head", node |-> 1], [op |-> "Head", node |-> 2]}
 
 AllOps(g) == ParOps(g) \cup {Prologue(g)[i] : i \in DOMAIN Prologue(g)}
                        \cup UNION {{t[i] : i \in DOMAIN t} : t \in Twists(g)}
@@ -419,14 +443,18 @@ Count(s, x) == Cardinality({i \in DOMAIN s : s[i] = x})
 
 \* overlap patterns: 1..Width(g) operations in gate-release order, at most two instances of each
 \* (group restcfg has five operations and two environment twists: pairs)
-Width(g) == IF g \in {"restcfg", "dirk", "syncduty"} /\ MaxPar > 2 THEN 2 ELSE MaxPar
+Width(g) == IF g \in {"restcfg", "dirk", "syncduty", "attinfo"} /\ MaxPar > 2 THEN 2 ELSE MaxPar
 Schedules(g) ==
     {s \in UNION {[1..n -> ParOps(g)] : n \in 1..Width(g)} :
         /\ \A x \in ParOps(g) : Count(s, x) <= 2
         \* the accounts refresher is ONE periodic job (rescheduled after it returned): it never overlaps itself
         /\ g = "dirk" => Cardinality({i \in DOMAIN s : s[i].op = "Refresh"}) <= 1
         \* one job is started once, one node delivers the head event of a slot once
-        /\ g = "syncduty" => \A i, j \in DOMAIN s : i # j => SyncKey(s[i]) # SyncKey(s[j])}
+        /\ g = "syncduty" => \A i, j \in DOMAIN s : i # j => SyncKey(s[i]) # SyncKey(s[j])
+        \* the job of a slot runs once; whether the aggregator's account is found only matters when there are attestations
+        /\ g = "attinfo" => \A i, j \in DOMAIN s :
+                                /\ (i # j /\ s[i].op = "Job" /\ s[j].op = "Job") => s[i].s # s[j].s
+                                /\ (s[i].op = "Job" /\ s[i].att = "none") => s[i].acct = "yes"}
 
 \* How the environment resolves the overlap of a schedule: "free" = the calls start in the generated order and run
 \* as they come; or ONE call is HELD at an interface while the others run, then released:
@@ -451,6 +479,7 @@ Guard ==
             "syncaggregator.beaconBlockRoots", "controller.subscriptionInfos", "controller.pendingAttestations",
             "bestproposal.priorBlocksVotes", "builderbid.relayPubkeys",
             "dirk.accounts", "dirk.pubKeys", "dirk.pubKeys.elements", "dirk.wallets",
+            "controller.subscriptionInfos.entries",
             "syncduty.messageIndices", "syncduty.accountsByIndex", "syncduty.dutyAccounts", "syncduty.selectionProofs"} |->
         CASE v = "wallet.accounts" -> "wallet.mutex"
           [] v = "blockrelay.executionConfig" -> "blockrelay.executionConfigMu"
@@ -473,6 +502,10 @@ Guard ==
           [] v = "syncaggregator.beaconBlockRoots" -> "syncaggregator.beaconBlockRootsMu"
           [] v = "controller.subscriptionInfos" -> "controller.subscriptionInfosMutex"
           [] v = "controller.pendingAttestations" -> "controller.pendingAttestationsMutex"
+          \* the entries of an epoch's subscription info (slot -> committee -> subscription) that has been published
+          \* through the field: the attestation jobs of the epoch's slots pick the epoch's map up under the lock and read
+          \* its entries WITHOUT it - disciplined as long as a published info is replaced, never altered
+          [] v = "controller.subscriptionInfos.entries" -> "controller.subscriptionInfosMutex"
           [] v = "bestproposal.priorBlocksVotes" -> "bestproposal.priorBlocksVotesMu"
           [] v = "builderbid.relayPubkeys" -> "builderbid.relayPubkeysMu"
           \* dirk account manager: the map of accounts and the list of public keys are REPLACED by a refresh (both
@@ -598,6 +631,21 @@ Steps(g, o) ==
               Acc("builderbid.relayPubkeys", "W", W("builderbid.relayPubkeysMu"))>>
       [] g = "dirk" -> DirkSteps(o, FALSE)          \* (the rendering of a call of a history: StepsOf)
       [] g = "syncduty" -> <<>>                     \* no lock to render: part (c), Touch
+      [] g = "attinfo" ->
+            IF o.op = "Head"
+            THEN <<Acc("controller.reorgFields", "W", W("controller.reorgMu")),
+                   Acc("controller.subscriptionInfos", "W", W("controller.subscriptionInfosMutex"))>>     \* old epochs removed
+                 \* node 2 is on another fork: the refresh it starts publishes a NEW info for the epoch
+                 \o (IF o.node = 2 THEN <<Acc("controller.subscriptionInfos", "W", W("controller.subscriptionInfosMutex"))>> ELSE <<>>)
+            ELSE (IF o.att = "some"
+                  THEN <<Acc("controller.subscriptionInfos", "R", W("controller.subscriptionInfosMutex")),
+                         Acc("controller.subscriptionInfos.entries", "R", None)>>
+                       \* class job-subscription-entries: the job removes its slot from the epoch's info when the
+                       \* aggregator has no account (even under the lock: the other jobs read without it)
+                       \o (IF AliasWrite = "job-subscription-entries" /\ o.acct = "no"
+                           THEN <<Acc("controller.subscriptionInfos.entries", "W", W("controller.subscriptionInfosMutex"))>> ELSE <<>>)
+                  ELSE <<>>)
+                 \o <<Acc("controller.pendingAttestations", "W", W("controller.pendingAttestationsMutex"))>>
 
 -----------------------------------------------------------------------------
 VARIABLES g,        \* the group of the current history
@@ -645,13 +693,12 @@ Allowed(i, a) ==
 \* a linearization point (the only one, for every group but syncduty): the effect takes place, the result is determined
 Linearize(i) ==
     /\ i \in DOMAIN calls /\ calls[i].status = "pending"
-    /\ \E a \in ApplyPh(g, st, calls[i].op, calls[i].ph, calls[i].res) :
+    /\ LET k == IF g = "syncduty" /\ calls[i].ph = 1 THEN JobGen(st, calls[i].op) ELSE calls[i].gen IN
+       \E a \in ApplyPh(g, st, calls[i].op, calls[i].ph, calls[i].res, k) :
           /\ Allowed(i, a)
           /\ st' = a.st
           /\ calls' = [calls EXCEPT ![i].status = IF a.ph = 0 THEN "done" ELSE "pending", ![i].res = a.res, ![i].ph = a.ph,
-                                    \* the duty whose job the call takes (first point of a job of group syncduty)
-                                    ![i].gen = IF g = "syncduty" /\ calls[i].ph = 1 /\ calls[i].op.op \in {"Prep", "Msg", "Agg"}
-                                               THEN st.gen[calls[i].op.s] ELSE @]
+                                    ![i].gen = k]      \* the duty whose job the call has taken (group syncduty)
     \* (the history variable is kept for the groups whose calls have one point: a call of group syncduty passes
     \* several, its result is compared point by point where it is determined - Linearize, TraceRet)
     /\ lin' = IF g = "syncduty" THEN lin ELSE Append(lin, <<i, calls[i].ph>>)
@@ -715,7 +762,7 @@ RECURSIVE Replay(_, _, _)
 Replay(s, k, p) ==           \* is there a sequential run of lin[k..] from s that yields the recorded results?  p: id -> result so far
     IF k > Len(lin) THEN s = st /\ \A i \in DOMAIN calls : calls[i].res = p[i]
     ELSE LET e == lin[k] IN
-         \E a \in ApplyPh(g, s, calls[e[1]].op, e[2], p[e[1]]) : Replay(a.st, k + 1, [p EXCEPT ![e[1]] = a.res])
+         \E a \in ApplyPh(g, s, calls[e[1]].op, e[2], p[e[1]], 0) : Replay(a.st, k + 1, [p EXCEPT ![e[1]] = a.res])
 
 Linearizable == g # "syncduty" => \E s0 \in SeqInits(g) : Replay(s0, 1, [i \in DOMAIN calls |-> NoRes])
 
@@ -759,12 +806,12 @@ CallTouch(i) ==
            [] OTHER -> {}
 \* Units under way: the calls, the message jobs a head event started, the scheduling goroutines of a refresh (each
 \* reads the period's accounts map for the duty of its slot)
-Units == {<<"call", i>> : i \in DOMAIN calls} \cup {<<"spawn", s>> : s \in st.spawn} \cup {<<"spawn2", s>> : s \in st.spawn2}
+Units == {<<"call", i>> : i \in DOMAIN calls} \cup {<<"spawn", j>> : j \in st.spawn} \cup {<<"spawn2", j>> : j \in st.spawn2}
          \cup {<<"sched", s>> : s \in st.pend}
 Touch(u) ==
     CASE u[1] = "call" -> CallTouch(u[2])
-      [] u[1] = "spawn" -> MsgTouch(u[2], st.gen[u[2]], 1)
-      [] u[1] = "spawn2" -> MsgTouch(u[2], st.gen[u[2]], 2)
+      [] u[1] = "spawn" -> MsgTouch(u[2][1], u[2][2], 1)
+      [] u[1] = "spawn2" -> MsgTouch(u[2][1], u[2][2], 2)
       [] OTHER -> {Tch(Obj("syncduty.accountsByIndex", 0, 1), "R")}
                   \cup (IF AliasWrite = "schedule-accounts" /\ SomeAccountless THEN {Tch(Obj("syncduty.accountsByIndex", 0, 1), "W")} ELSE {})
 \* "shared => never written after publication": no object is touched by two units under way when one of them writes
